@@ -16,7 +16,7 @@ def load_known():
 
 
 def save_replay(prop, q, rec):
-    d = os.path.join(VERIF, "out", "replays", prop)
+    d = os.path.join(os.environ.get("VERIF_OUT_DIR") or os.path.join(VERIF, "out"), "replays", prop)
     os.makedirs(d, exist_ok=True)
     path = os.path.join(d, "%s.json" % "".join(c if c.isalnum() or c in "._-" else "_" for c in q.name))
     doc = {
@@ -205,8 +205,9 @@ def finish(prop, tier, seed, eng, queries, level, rule, assumptions, outside, ex
         "wall_s": round(time.time() - eng.t0, 1),
         "violations": len(violations),
     }
-    os.makedirs(os.path.join(VERIF, "evidence"), exist_ok=True)
-    json.dump(ev, open(os.path.join(VERIF, "evidence", "%s.json" % prop), "w"), indent=1)
+    evdir = os.environ.get("VERIF_EVIDENCE_DIR") or os.path.join(VERIF, "evidence")
+    os.makedirs(evdir, exist_ok=True)
+    json.dump(ev, open(os.path.join(evdir, "%s.json" % prop), "w"), indent=1)
     sys.stderr.write("[%s] tier=%s queries=%d hold=%d violated=%d unconfirmed=%d undecided=%d step-inconclusive=%d vacuous=%d skipped=%d wall=%.0fs\n" % (
         prop, tier, len(queries), len(holds), len(violations), len(unconfirmed), len(undecided), len(step_fail), len(vacuous), len(skipped),
         time.time() - eng.t0))
